@@ -11,8 +11,8 @@ Model side, following the code:
   mutagen/mp4/__init__.py  _find_padding                      -> `findPadding` (Python's `children[-1]` included)
                            __save_existing / __save_new       -> `regionOf` (which bytes are replaced, whose sizes change)
                            __update_parents                   -> `patchSize`, `updateParents`
-                           __update_offset_table              -> `updateOffsetTable`
-                           __update_tfhd                      -> `updateTfhd`
+                           __update_offset_table              -> `updateOffsetTable8`
+                           __update_tfhd                      -> `updateTfhd8`
                            __update_offsets                   -> `updateOffsets` (only `atoms[b"moov"]`, only `atoms[b"moof"]`
                                                                   = the FIRST top-level moov / moof)
   and `saveRegion` = resize_bytes + write + __update_parents + __update_offsets on the bytes.
@@ -345,20 +345,20 @@ def pyIndex (l : List α) (i : Int) : Option α :=
 
 def indexOfName (kids : List PAtom) (name : Bytes) : Nat := kids.findIdx (·.name = name)
 
-/-- `_find_padding`: the `free` atom before `ilst`, else the one after it.  `index - 1` is `-1`
-when `ilst` is the first child of `meta`, and Python then looks at the LAST child. -/
+/-- `_find_padding`: the `free` atom directly before `ilst` (only when `ilst` is not the first
+child — `if index > 0`; before the repair recorded in known_findings.json `children[index - 1]`
+with `index = 0` was the LAST child), else the one directly after it. -/
 def findPadding (metaA : PAtom) : Option PAtom :=
-  let index : Int := indexOfName metaA.children nIlst
-  match pyIndex metaA.children (index - 1) with
-  | some prev =>
-    if prev.name = nFree then some prev
-    else match pyIndex metaA.children (index + 1) with
-      | some next => if next.name = nFree then some next else none
-      | none => none
-  | none =>
-    match pyIndex metaA.children (index + 1) with
-    | some next => if next.name = nFree then some next else none
+  let index : Nat := indexOfName metaA.children nIlst
+  let next : Option PAtom :=
+    match pyIndex metaA.children ((index : Int) + 1) with
+    | some n => if n.name = nFree then some n else none
     | none => none
+  if index > 0 then
+    match pyIndex metaA.children ((index : Int) - 1) with
+    | some prev => if prev.name = nFree then some prev else next
+    | none => next
+  else next
 
 /-- the replaced region and the atoms whose size fields follow it -/
 structure Region where
@@ -397,7 +397,7 @@ def packBE (w : Nat) (v : Int) (err : PyErr) : Except PyErr Bytes :=
   if v < 0 ∨ v ≥ (256 ^ w : Nat) then .error err else .ok (toBE w v.toNat)
 
 /-- one round of `__update_parents`: the 32-bit size field, or the 64-bit one when the 32-bit
-field reads 1.  A size field 0 ("to the end of file") is treated like any other number.  Short
+field reads 1.  A size field 0 ("to the end of file") is left as it is.  Short
 reads and values that do not fit the field (`cdata.error`) are raised as MP4MetadataError. -/
 def patchSize (g : Bytes) (off : Nat) (delta : Int) : Except PyErr Bytes :=
   let s32 := readAt g off 4
@@ -408,6 +408,7 @@ def patchSize (g : Bytes) (off : Nat) (delta : Int) : Except PyErr Bytes :=
     else match packBE 8 ((ofBE ext : Int) + delta) .mutagen with
       | .error e => .error e
       | .ok b => .ok (writeAt g (off + 8) b)
+  else if ofBE s32 = 0 then .ok g
   else match packBE 4 ((ofBE s32 : Int) + delta) .mutagen with
     | .error e => .error e
     | .ok b => .ok (writeAt g off b)
@@ -418,7 +419,7 @@ def pyRead (g : Bytes) (pos : Nat) (n : Int) : Bytes :=
 
 /-- `__update_offset_table` on an atom at (already shifted) `off` of length `len`; `w` = 4 (stco) or
 8 (co64).  The header is assumed 8 bytes long (the count is read at `off + 12`). -/
-def updateOffsetTable (g : Bytes) (w off len : Nat) (delta : Int) (offset : Nat) : Except PyErr Bytes :=
+def updateOffsetTable8 (g : Bytes) (w off len : Nat) (delta : Int) (offset : Nat) : Except PyErr Bytes :=
   let data := pyRead g (off + 12) ((len : Int) - 12)
   if (data.take 4).length < 4 then .error .mutagen       -- cdata.uint_be inside the try: MP4MetadataError
   else
@@ -431,7 +432,7 @@ def updateOffsetTable (g : Bytes) (w off len : Nat) (delta : Int) (offset : Nat)
       else .ok (writeAt g (off + 16) (encodeEntries w (es.map Int.toNat)))
 
 /-- `__update_tfhd` (flags at `off + 9`, base_data_offset at `off + 16`: 8-byte header assumed) -/
-def updateTfhd (g : Bytes) (off len : Nat) (delta : Int) (offset : Nat) : Except PyErr Bytes :=
+def updateTfhd8 (g : Bytes) (off len : Nat) (delta : Int) (offset : Nat) : Except PyErr Bytes :=
   let data := pyRead g (off + 9) ((len : Int) - 9)
   -- cdata.uint_be(b"\x00" + data[:3]) needs 3 bytes
   if (data.take 3).length < 3 then .error .struct_
@@ -460,16 +461,13 @@ def parentSteps (parents : List PAtom) (delta : Int) : List (Bytes → Except Py
   if delta = 0 then [] else parents.map fun a => fun g => patchSize g a.offset delta
 
 /-- the atoms `__update_offsets` visits, in order, with the entry width (0 marks a `tfhd`): `stco`
-then `co64` below the first `moov`, then `tfhd` below the first `moof` (`atoms[b"moof"]`; KeyError =
-no moof = nothing more to do) -/
+then `co64` below the first `moov`, then `tfhd` below EVERY top-level `moof` in file order -/
 def visited (atoms : List PAtom) : List (Nat × PAtom) :=
   match child? atoms nMoov with
   | none => []
   | some moov =>
     (moov.findall nStco).map (fun a => (4, a)) ++ (moov.findall nCo64).map (fun a => (8, a)) ++
-      (match child? atoms nMoof with
-       | none => []
-       | some moof => (moof.findall nTfhd).map (fun a => (0, a)))
+      ((atoms.filter (·.name = nMoof)).flatMap fun m => (m.findall nTfhd).map (fun a => (0, a)))
 
 /-- every table atom the parsed file has: `stco` / `co64` below ANY top-level `moov`, `tfhd` below ANY
 top-level `moof` (what `__update_offsets` would have to visit) -/
@@ -479,11 +477,66 @@ def allTables (atoms : List PAtom) : List (Nat × PAtom) :=
   ((atoms.filter (·.name = nMoof)).flatMap fun m => (m.findall nTfhd).map (fun a => (0, a)))
 
 /-- `__update_offset_table(fileobj, fmt, atom, delta, offset)` / `__update_tfhd(...)` as a step -/
-def tableStep (delta : Int) (offset : Nat) (t : Nat × PAtom) : Bytes → Except PyErr Bytes := fun g =>
-  if t.1 = 0 then updateTfhd g (shifted t.2 delta offset) t.2.length delta offset
-  else updateOffsetTable g t.1 (shifted t.2 delta offset) t.2.length delta offset
+def tableStep8 (delta : Int) (offset : Nat) (t : Nat × PAtom) : Bytes → Except PyErr Bytes := fun g =>
+  if t.1 = 0 then updateTfhd8 g (shifted t.2 delta offset) t.2.length delta offset
+  else updateOffsetTable8 g t.1 (shifted t.2 delta offset) t.2.length delta offset
 
 /-- the steps of `__update_offsets` (`atoms[b"moov"]` missing: KeyError) -/
+def offsetSteps8 (atoms : List PAtom) (delta : Int) (offset : Nat) : List (Bytes → Except PyErr Bytes) :=
+  if delta = 0 then []
+  else
+    match child? atoms nMoov with
+    | none => [fun _ => .error .key]
+    | some _ => (visited atoms).map (tableStep8 delta offset)
+
+/-- what `__save_existing` / `__save_new` do to the file once the new bytes are rendered: replace
+`[offset, offset+old)` by `new`, then `__update_parents(parents, delta)`, then
+`__update_offsets(atoms, delta, offset)`.  Result: the exception that ended the save (if any) and
+the bytes in the file. -/
+def saveAt8 (f : Bytes) (atoms : List PAtom) (parents : List PAtom) (offset old : Nat) (new : Bytes) :
+    Option PyErr × Bytes :=
+  if f.length < offset + old then (some .value, f)      -- resize_bytes rejects before writing
+  else
+    let delta : Int := (new.length : Int) - old
+    runSteps (parentSteps parents delta ++ offsetSteps8 atoms delta offset) (splice f offset old new)
+
+/-! The code as it is now: the payload of a table atom starts at `_dataoffset`, i.e. `hl` = 8 or
+(64-bit size header) 16 bytes behind the start of the atom.  The definitions with suffix `8` above
+are the same functions for `hl = 8` (`saveAt_eq_saveAt8` in Proofs/Container/Mp4.lean); the
+byte-level theorems are proved for them. -/
+
+/-- header length of a parsed atom: `_dataoffset - offset` -/
+def hdrOf (a : PAtom) : Nat := a.dataoffset - a.offset
+
+/-- `__update_offset_table`: count at `_dataoffset + 4`, entries written at `_dataoffset + 8` -/
+def updateOffsetTable (g : Bytes) (hl w off len : Nat) (delta : Int) (offset : Nat) : Except PyErr Bytes :=
+  let data := pyRead g (off + hl + 4) ((len : Int) - hl - 4)
+  if (data.take 4).length < 4 then .error .mutagen
+  else
+    let cnt := ofBE (data.take 4)
+    let body := data.drop 4
+    if body.length ≠ cnt * w then .error .mutagen
+    else
+      let es := (entriesOf w cnt body).map (patchEntry offset delta)
+      if es.any (fun v => v < 0 ∨ v ≥ (256 ^ w : Nat)) then .error .mutagen
+      else .ok (writeAt g (off + hl + 8) (encodeEntries w (es.map Int.toNat)))
+
+/-- `__update_tfhd`: flags at `_dataoffset + 1`, base_data_offset at `_dataoffset + 8` -/
+def updateTfhd (g : Bytes) (hl off len : Nat) (delta : Int) (offset : Nat) : Except PyErr Bytes :=
+  let data := pyRead g (off + hl + 1) ((len : Int) - hl - 1)
+  if (data.take 3).length < 3 then .error .struct_
+  else if ofBE (data.take 3) % 2 = 1 then
+    let raw := (data.drop 7).take 8
+    if raw.length < 8 then .error .struct_
+    else match packBE 8 (patchEntry offset delta (ofBE raw)) .struct_ with
+      | .error e => .error e
+      | .ok b => .ok (writeAt g (off + hl + 8) b)
+  else .ok g
+
+def tableStep (delta : Int) (offset : Nat) (t : Nat × PAtom) : Bytes → Except PyErr Bytes := fun g =>
+  if t.1 = 0 then updateTfhd g (hdrOf t.2) (shifted t.2 delta offset) t.2.length delta offset
+  else updateOffsetTable g (hdrOf t.2) t.1 (shifted t.2 delta offset) t.2.length delta offset
+
 def offsetSteps (atoms : List PAtom) (delta : Int) (offset : Nat) : List (Bytes → Except PyErr Bytes) :=
   if delta = 0 then []
   else
@@ -491,13 +544,10 @@ def offsetSteps (atoms : List PAtom) (delta : Int) (offset : Nat) : List (Bytes 
     | none => [fun _ => .error .key]
     | some _ => (visited atoms).map (tableStep delta offset)
 
-/-- what `__save_existing` / `__save_new` do to the file once the new bytes are rendered: replace
-`[offset, offset+old)` by `new`, then `__update_parents(parents, delta)`, then
-`__update_offsets(atoms, delta, offset)`.  Result: the exception that ended the save (if any) and
-the bytes in the file. -/
+/-- `__save_existing` / `__save_new` once the new bytes are rendered (see `saveAt8`) -/
 def saveAt (f : Bytes) (atoms : List PAtom) (parents : List PAtom) (offset old : Nat) (new : Bytes) :
     Option PyErr × Bytes :=
-  if f.length < offset + old then (some .value, f)      -- resize_bytes rejects before writing
+  if f.length < offset + old then (some .value, f)
   else
     let delta : Int := (new.length : Int) - old
     runSteps (parentSteps parents delta ++ offsetSteps atoms delta offset) (splice f offset old new)
@@ -606,7 +656,7 @@ def entriesOfTable (f : Bytes) (t : Nat × PAtom) : List Nat :=
 /-- all hypotheses of `chunk_offsets_follow_partial` hold for this save, and every recorded offset
 is media (`MediaClear`) for windows of `n` bytes: the theorem then says every offset follows -/
 def covered (f : Bytes) (atoms parents : List PAtom) (o old : Nat) (delta : Int) (n : Nat) : Bool :=
-  decide ((atoms.filter (·.name = nMoov)).length = 1) && decide ((atoms.filter (·.name = nMoof)).length ≤ 1) &&
+  decide ((atoms.filter (·.name = nMoov)).length = 1) &&
     decide (SaveSafe f atoms parents o old delta) &&
     (allTables atoms).all fun t => (entriesOfTable f t).all fun e => decide (MediaClear parents atoms o old delta e n)
 
